@@ -288,7 +288,11 @@ def r_acyc(E):
         edges[(c, x)] = {(d, y) for (d, y, s) in cx.reads if E.is_calc(d, y)}
         res.instances += 1
         owner, fn = pm.find_method(c, "update_" + x)
-        if (c, x, True) in cx.reads:
+        # (a read that reaches neither the value written nor the tests it is written under — the previous value carried along
+        # in a record as a token and replaced before use — does not make the result depend on the previous value)
+        reaches = any((c, x, True) in (s_.valdeps | s_.ctl | (s_.parents or frozenset())) or any(
+            r_[:2] == (c, x) for r_ in (s_.valdeps | s_.ctl)) for s_ in cx.writes.get(x, []))
+        if (c, x, True) in cx.reads and (reaches or not cx.writes.get(x)):
             res.findings.append(Finding(
                 "R-ACYC", f"{c}.update_{x} reads self.{x}",
                 f"{c}.update_{x} reads the attribute it computes: the result depends on the previous value, so a "
@@ -330,6 +334,95 @@ def r_acyc(E):
     _undecided(E, res)
     res.floor = 111
     return res
+
+
+def _token_memo(pm, cx, c, x, attr, site):
+    """`self.<attr>` written by update_<x> is a record of by-products stamped with the object just assigned to self.<x>
+    (`rec._replace(tok=self.<x>)` / `Rec(self.<x>, …)`), everything else in it depends on nothing the value of <x> does not
+    depend on, and every reader of self.<attr> in the class discards it unless `<memo>.tok is self.<x>`: returns a text
+    naming the token, else None."""
+    from ..interp import deep_deps
+    v = site.value
+    if v is None or v.k != "rec" or not v.fields:
+        return None
+    w = site.node
+    if not isinstance(w, ast.Assign):
+        return None
+    me = f"self.{x}"
+    tok = None
+    val = w.value
+    if isinstance(val, ast.Call) and isinstance(val.func, ast.Attribute) and val.func.attr == "_replace":
+        hits = [k.arg for k in val.keywords if k.arg and norm(k.value) == me]
+        tok = hits[0] if len(hits) == 1 else None
+    elif isinstance(val, ast.Call):
+        from ..interp import Interp  # noqa: F401  (record field order comes from the interpreter's record table)
+        names = list(v.fields)
+        hits = [names[i] for i, a_ in enumerate(val.args) if i < len(names) and norm(a_) == me] + [
+            k.arg for k in val.keywords if k.arg and norm(k.value) == me]
+        tok = hits[0] if len(hits) == 1 else None
+    if tok is None or tok not in v.fields:
+        return None
+    xsites = cx.writes.get(x, [])
+    if not xsites or not all(getattr(s_.node, "lineno", 0) < getattr(w, "lineno", 0) for s_ in xsites):
+        return None
+    allowed = set()
+    for s_ in xsites:
+        allowed |= set(s_.valdeps) | set(s_.ctl)
+    for fld, fv in v.fields.items():
+        if fld == tok:
+            continue
+        extra = {r_ for r_ in deep_deps(fv) if r_ not in allowed and r_[:2] != (c, x)}
+        if extra:
+            return None
+    # the readers
+    readers = 0
+    for k in pm.classes:
+        if c not in pm.mro(k) and k not in pm.mro(c):
+            continue
+        for m in pm.own_methods(k):
+            loads = [n for n in ast.walk(m) if (isinstance(n, ast.Attribute) and n.attr == attr and isinstance(n.ctx, ast.Load)
+                                               and norm(n.value) == "self")
+                     or (isinstance(n, ast.Call) and isinstance(n.func, ast.Name) and n.func.id == "getattr" and len(n.args) >= 2
+                         and norm(n.args[0]) == "self" and isinstance(n.args[1], ast.Constant) and n.args[1].value == attr)]
+            if not loads:
+                continue
+            if len(loads) != 1:
+                return None
+            ld = loads[0]
+            par = getattr(ld, "_parent", None)
+            if not (isinstance(par, ast.Assign) and par.value is ld and len(par.targets) == 1 and isinstance(par.targets[0], ast.Name)):
+                return None
+            mname = par.targets[0].id
+            # the statement right after: `if m is None or m.tok is not self.x: m = <recomputed>`
+            body = None
+            for n in ast.walk(m):
+                for fld_ in ("body", "orelse"):
+                    lst = getattr(n, fld_, None)
+                    if isinstance(lst, list) and any(y is par for y in lst):
+                        body = lst
+            if body is None:
+                return None
+            i = next(j for j, y in enumerate(body) if y is par)
+            if i + 1 >= len(body) or not isinstance(body[i + 1], ast.If) or body[i + 1].orelse:
+                return None
+            g = body[i + 1]
+            atoms = g.test.values if isinstance(g.test, ast.BoolOp) and isinstance(g.test.op, ast.Or) else [g.test]
+            ident = any(isinstance(t_, ast.Compare) and len(t_.ops) == 1 and isinstance(t_.ops[0], ast.IsNot)
+                        and {norm(t_.left), norm(t_.comparators[0])} == {f"{mname}.{tok}", me} for t_ in atoms)
+            others_ok = all((isinstance(t_, ast.Compare) and len(t_.ops) == 1 and isinstance(t_.ops[0], (ast.Is, ast.IsNot))
+                             and norm(t_.left) in (mname, f"{mname}.{tok}")) for t_ in atoms)
+            rebinds = [st for st in g.body if isinstance(st, ast.Assign) and len(st.targets) == 1
+                       and isinstance(st.targets[0], ast.Name) and st.targets[0].id == mname]
+            if not (ident and others_ok and len(rebinds) == 1 and len(g.body) == 1):
+                return None
+            # no use of the memo before the guard, and nothing else in the method binds it
+            if any(isinstance(n, ast.Name) and n.id == mname and isinstance(n.ctx, ast.Store) and n is not par.targets[0]
+                   and n is not rebinds[0].targets[0] for n in ast.walk(m)):
+                return None
+            readers += 1
+    if not readers:
+        return None
+    return f"{tok} is self.{x}"
 
 
 def _keyed_memo(pm, site, attr):
@@ -431,6 +524,14 @@ def r_write(E):
         for a, sites in sorted(cx.writes.items()):
             if a != x:
                 s = sites[0]
+                tm = _token_memo(pm, cx, c, x, a, s)
+                if tm:
+                    # by-products of this very rule kept next to its result and only ever used while `self.<x>` *is* the
+                    # object this rule assigned with them: nothing outlives the value they were computed with
+                    if len(res.samples) < 6:
+                        res.samples.append({"context": f"{c}.update_{x}", "by-product memo": f"self.{a}", "token": tm,
+                                            "verdict": "used only while the token is identical to the current value"})
+                    continue
                 km = _keyed_memo(pm, s, a)
                 if km is not None and not km[1]:
                     # a memo validated by a key that names every input the memoised value is computed from: reading it is
